@@ -541,6 +541,19 @@ fn try_paths(cfg: &Cfg) {
             let g1 = g.clone();
             hs.push(spawn(move || g1.fire_stale()));
         }
+        7 => {
+            // nothing is queued or in progress; an observer formats the queue's Debug text (which looks at the queue's state)
+            w.desync(&q, "D", Body::plain());
+            rt::quiesce();
+            if pool == 0 {
+                w.sync(&q, "DRAIN", Body::plain());
+            }
+            let q1 = q.clone();
+            hs.push(spawn(move || {
+                let text = match &q1 { Obj::Raw(jq, _) => format!("{:?}", jq), Obj::D(_, _) => String::new() };
+                rt::outcome(format!("dbg={}", text.len().min(1)));
+            }));
+        }
         _ => {
             let (w1, q1, g1) = (w.clone(), q.clone(), g.clone());
             hs.push(spawn(move || w1.future_desync(&q1, "FD", Body::gated(&g1)).wait()));
@@ -550,6 +563,11 @@ fn try_paths(cfg: &Cfg) {
         let (w1, q1) = (w.clone(), q.clone());
         hs.push(spawn(move || {
             let (_, ok) = w1.try_sync(&q1, "T", Body::plain());
+            if !ok && (path == 6 || path == 7) {
+                // in these paths no operation is queued or in progress at any time during the call: only a stale waker fires,
+                // or somebody looks at the queue
+                rt::violation("NOT-QUIET try_sync reported Busy although the object had no operation queued or in progress (only a stale waker firing / an observer looking at the queue)".into());
+            }
             rt::outcome(format!("T={}", ok));
             // later work is still accepted and completes
             w1.desync(&q1, "L", Body::plain());
